@@ -24,7 +24,8 @@ REQUIRED = ["parse_sound", "last_member_decides", "lc_exact", "lc_exact_fails_wi
             "fact_framing_body", "accepted_bytes_pass_framing", "accepted_compact_is_three_canonical_segments", "one_signed_transaction_one_ref",
             "honest_compact_passes_framing", "decoder_alone_is_not_injective",
             "store_bytes_refine_graph_add", "hash_list_append_parses", "clock_shelf_decodes", "find_between_lc_reads_every_stored_tx",
-            "range_scan_stops_at_a_gap", "counters_read_back", "fact_store_bodies", "fact_store_keys"]
+            "range_scan_stops_at_a_gap", "counters_read_back", "fact_store_bodies", "fact_store_keys",
+            "new_transaction_sound", "signed_transaction_parses_back", "created_signed_parsed_admitted", "hex_round_trip", "fact_create_bodies"]
 
 HEX64 = re.compile(r"^[0-9a-fA-F]{64}$")
 
@@ -263,7 +264,7 @@ def run(ctx):
     def replay_text(i):
         meta = json.dumps({"op": "meta", "leg": leg_of[i], "seed": ctx.seed})
         op = ops[i].get("op")
-        if op in ("parse", "framing", "hashlist"):
+        if op in ("parse", "framing", "hashlist", "newtx"):
             return meta + "\n" + raw_ops[i]
         return meta + "\n" + "\n".join(raw_ops[hist_start(i):i + 1])
 
@@ -677,6 +678,57 @@ def run(ctx):
     ctx.oblige("oracle:store-bytes-hold-exactly-the-dag(impl)", not any(s.split(":")[1] in ("hash-list-codec", "clock-index-differs-from-documents", "metadata-differs-from-stored",
                "root-check-misreads-store", "find-between-lc-incomplete") for s in seen_sig), f"{n_shelf} raw store dumps, {n_ranges} range scans, {n_hashlist} hash-list inputs")
 
+
+    # ------------------------------------------------------------------ oracle 2c (deepening round): NewTransaction + Sign, on the implementation's own outputs
+    n_newtx = 0
+    newtx_classes = Counter()
+    for i, op in enumerate(ops):
+        if op.get("op") != "newtx":
+            continue
+        n_newtx += 1
+        line = impl[i]
+        cty, prevs_in, lc_in = op.get("cty", ""), [p.lower() for p in op.get("prevs") or []], int(op.get("lc", 0))
+        dd = []
+        for pv in prevs_in:
+            if pv not in dd:
+                dd.append(pv)
+        dd8 = ",".join(pv[:8] for pv in dd)
+        newtx_classes[line.split(" ")[0] + ("/" + line.split(" | sign=")[1].split(" ")[0] if " | sign=" in line else "")] += 1
+        if "/" not in cty:
+            if line != "err:invalid-payload-type":
+                violate("C06:new-transaction-accepts-invalid", f"NewTransaction accepted the payload type {cty!r} (no MIME form): {line[:120]}", i)
+            continue
+        if any(set(pv) == {"0"} for pv in prevs_in):
+            if line != "err:invalid-prevs":
+                violate("C06:new-transaction-accepts-invalid", f"NewTransaction accepted an empty hash among the prevs: {line[:120]}", i)
+            continue
+        head, _, sign = line.partition(" | sign=")
+        hv = dict(re.findall(r"(\w+)=(\[[^\]]*\]|\S+)", head))
+        if not head.startswith("new ") or hv.get("prevs") != f"[{dd8}]" or hv.get("nilprevs") != ("true" if not dd else "false") or hv.get("ver") != "2" or hv.get("lc") != str(lc_in):
+            violate("C06:new-transaction-prevs", f"NewTransaction({cty!r}, prevs={[pv[:8] for pv in prevs_in]}, lc={lc_in}) gave {head[:200]}; expected prevs [{dd8}] (each once, order kept), version 2", i)
+            continue
+        if hv.get("zero") != "err:signing-time-zero":
+            violate("C06:sign-precheck", f"Sign with the zero time: {hv.get('zero')}", i)
+        sigt_in, embed, kid = int(op.get("sigt", 0)), bool(op.get("embed")), op.get("kid", "")
+        if sigt_in == 0:
+            if sign != "err:signing-time-zero":
+                violate("C06:sign-precheck", f"Sign with the zero time: {sign[:100]}", i)
+            continue
+        if not embed and kid == "":
+            if sign != "err:kid-jwk":
+                violate("C06:signed-transaction-differs-from-request", f"Sign without key and without kid: {sign[:100]}", i)
+            continue
+        sv = dict(re.findall(r"(\w+)=(\"(?:[^\"\\]|\\.)*\"|\[[^\]]*\]|\S+)", sign))
+        want_names = sorted(["alg", "crit", "cty", "jwk" if embed else "kid", "lc", "prevs", "sigt", "ver"] + (["pal"] if op.get("paln") is not None else []))
+        want = {"ph": (op.get("ph") or "")[:8].lower(), "cty": json.dumps(cty), "jwk": "true" if embed else "false", "kid": json.dumps("" if embed else kid),
+                "sigt": str(sigt_in), "ver": "2", "prevs": f"[{dd8}]", "pal": str(op.get("paln") or 0), "lc": str(lc_in), "names": ",".join(want_names),
+                "crit": "sigt,ver,prevs,lc", "again": "err:already-signed"}
+        diff = {k: (sv.get(k), v) for k, v in want.items() if sv.get(k) != v}
+        if not sign.startswith("ok ") or sv.get("alg") not in algos or diff:
+            violate("C06:signed-transaction-differs-from-request", f"Sign produced a transaction that differs from what NewTransaction was given (got, want): {diff} — {sign[:160]}", i)
+    ctx.oblige("oracle:created-transaction-is-what-was-requested(impl)", not any(s.split(":")[1] in ("new-transaction-accepts-invalid", "new-transaction-prevs", "sign-precheck",
+               "signed-transaction-differs-from-request") for s in seen_sig), f"{n_newtx} NewTransaction+Sign calls")
+
     # ------------------------------------------------------------------ oracle 3: every interleaving equals a sequential order (impl only)
     groups = {}
     for i, op in enumerate(ops):
@@ -752,7 +804,7 @@ def run(ctx):
                        "re-offers after the missing prev arrived, a second state on the same DB; full observation after every op; (3) schedules: 8 scenario kinds x "
                        "ALL interleavings of read-tx/write-tx steps (6 for 2 threads, 90 for 3) forced by a gating KVStore. distinct_nontrivial = distinct input byte strings offered")
     ctx.cov["input_distribution"] = {"ops": {k: v for k, v in sorted(stats.items())}, "mutation_classes": dict(notes.most_common(40)),
-                                     "parse_unmodelled_framing": n_unmodelled, "framing_inputs": n_framing, "raw_store_dumps": n_shelf, "range_scans": n_ranges, "hash_list_inputs": n_hashlist, "framing_classes": dict(fr_notes.most_common(40)), "schedules": n_sched, "schedule_scenarios": n_groups,
+                                     "parse_unmodelled_framing": n_unmodelled, "framing_inputs": n_framing, "new_transaction_sign_calls": n_newtx, "new_transaction_outcomes": dict(newtx_classes), "raw_store_dumps": n_shelf, "range_scans": n_ranges, "hash_list_inputs": n_hashlist, "framing_classes": dict(fr_notes.most_common(40)), "schedules": n_sched, "schedule_scenarios": n_groups,
                                      "legs": dict(Counter(leg_of)), "transaction_lists(v2 handler)": n_list, "late_payloads(v2 handler)": n_late,
                                      "CreateTransaction calls (wired Network)": n_create,
                                      "adds": {"total": n_add, "admitted": n_admit, "rejected": n_reject, "re-adds": n_readd, "context-cancelled-in-write-tx": n_cancel}}
